@@ -252,6 +252,8 @@ def build_closure(spec, rec, spied=True, effects=None, malform=None):
     fx = st.get('fx', {})
     bad_sig = malform['signal'] if (malform and malform.get('state') == name and malform.get('kind') == 'none-status') else None
 
+    no_else = bool(malform and malform.get('state') == name and malform.get('kind') == 'no-else')
+
     def handler(chart, e):
       sn = e.signal_name
       rec('call', name, sn, None)
@@ -297,6 +299,8 @@ def build_closure(spec, rec, spied=True, effects=None, malform=None):
           rec('trans', name, sn, r['target'])
           b._fx(chart, e, r.get('fx'))
           return chart.trans(b.h[r['target']])
+      if no_else:
+        return None       # the forgotten else clause: no status (and no super state) for anything the state has no branch for
       chart.temp.fun = b.h[parent] if parent is not None else chart.top
       return rs.SUPER
 
